@@ -10,7 +10,9 @@ def config_name(c):
 
 
 def run_spec(m, t, no_prss, spec, policy, seed, max_steps=2_000_000, build_kwargs=None, world_kwargs=None):
-    w = sim.World(m, t, no_prss, seed=seed, policy=policy, **(world_kwargs or {}))
+    wk = dict(history='auto')
+    wk.update(world_kwargs or {})
+    w = sim.World(m, t, no_prss, seed=seed, policy=policy, **wk)
     prog = progs.build(spec, **(build_kwargs or {}))
     w.run(prog, max_steps=max_steps, extend=True)
     return w
